@@ -609,3 +609,138 @@ pub fn start_watchdog(secs: u64) {
         std::process::exit(2);
     });
 }
+
+// ---------------------------------------------------------------------------------------------
+// child-process isolation for inputs that may abort the process (stack overflow, OOM)
+
+#[derive(Debug, Clone, PartialEq)]
+pub enum ChildOutcome {
+    /// child finished this case and printed this one-line result
+    Done(String),
+    /// child died (signal / abort) while running this case
+    Died(String),
+    /// case not reached because the child died earlier (re-run separately)
+    NotRun,
+}
+
+/// Run `kind` over `inputs` in a child process (`tx3v child <kind> <file>`). The child prints
+/// "BEGIN i" before and "END i <result>" after each case, so a death identifies its culprit.
+/// The child's worker thread gets `stack_kb` of stack.
+pub fn run_isolated(kind: &str, inputs: &[Vec<u8>], stack_kb: usize, timeout_s: u64) -> Vec<ChildOutcome> {
+    use std::io::Write;
+    let dir = format!("{}/.work", VERIF_DIR);
+    let _ = std::fs::create_dir_all(&dir);
+    let mut results = vec![ChildOutcome::NotRun; inputs.len()];
+    let mut start = 0usize;
+    let exe = std::env::current_exe().expect("current exe");
+    let mut round = 0;
+    while start < inputs.len() {
+        round += 1;
+        let path = format!("{}/child-{}-{}-{}.txt", dir, kind, std::process::id(), round);
+        {
+            let mut f = std::fs::File::create(&path).expect("child input file");
+            for i in &inputs[start..] {
+                writeln!(f, "{}", hex::encode(i)).unwrap();
+            }
+        }
+        let child = std::process::Command::new(&exe)
+            .arg("child")
+            .arg(kind)
+            .arg(&path)
+            .arg(stack_kb.to_string())
+            .stdout(std::process::Stdio::piped())
+            .stderr(std::process::Stdio::null())
+            .spawn()
+            .expect("spawn child");
+        let started = Instant::now();
+        let out = wait_with_timeout(child, timeout_s);
+        let _ = std::fs::remove_file(&path);
+        let (stdout, status_desc, finished) = out;
+        let mut last_begun: Option<usize> = None;
+        let mut last_done: Option<usize> = None;
+        for line in stdout.lines() {
+            if let Some(rest) = line.strip_prefix("BEGIN ") {
+                last_begun = rest.trim().parse::<usize>().ok();
+            } else if let Some(rest) = line.strip_prefix("END ") {
+                let mut it = rest.splitn(2, ' ');
+                if let Some(i) = it.next().and_then(|s| s.parse::<usize>().ok()) {
+                    results[start + i] = ChildOutcome::Done(it.next().unwrap_or("").to_string());
+                    last_done = Some(i);
+                }
+            }
+        }
+        let _ = started;
+        if finished && last_done.map(|d| start + d + 1 == inputs.len()).unwrap_or(inputs[start..].is_empty()) {
+            break;
+        }
+        // the child died: blame the case that was begun but not ended
+        match last_begun {
+            Some(b) if last_done != Some(b) => {
+                results[start + b] = ChildOutcome::Died(status_desc);
+                start = start + b + 1;
+            }
+            _ => {
+                // died outside a case (infrastructure): give up on the rest
+                eprintln!("harness: child died outside a case: {}", status_desc);
+                break;
+            }
+        }
+    }
+    results
+}
+
+fn wait_with_timeout(mut child: std::process::Child, timeout_s: u64) -> (String, String, bool) {
+    use std::io::Read;
+    let mut stdout = child.stdout.take().unwrap();
+    let reader = std::thread::spawn(move || {
+        let mut s = String::new();
+        let _ = stdout.read_to_string(&mut s);
+        s
+    });
+    let t0 = Instant::now();
+    loop {
+        match child.try_wait() {
+            Ok(Some(status)) => {
+                let out = reader.join().unwrap_or_default();
+                let desc = format!("{}", status);
+                return (out, desc, status.success());
+            }
+            Ok(None) => {
+                if t0.elapsed().as_secs() > timeout_s {
+                    let _ = child.kill();
+                    let _ = child.wait();
+                    let out = reader.join().unwrap_or_default();
+                    return (out, format!("killed after {} s (timeout)", timeout_s), false);
+                }
+                std::thread::sleep(std::time::Duration::from_millis(5));
+            }
+            Err(e) => return (String::new(), format!("wait error {e}"), false),
+        }
+    }
+}
+
+/// child side: read hex lines, run `f` on each inside a thread with the requested stack
+pub fn child_main(path: &str, stack_kb: usize, f: fn(&[u8]) -> String) {
+    use std::io::Write;
+    let text = std::fs::read_to_string(path).expect("child input");
+    let inputs: Vec<Vec<u8>> = text.lines().map(|l| hex::decode(l.trim()).unwrap_or_default()).collect();
+    let handle = std::thread::Builder::new()
+        .stack_size(stack_kb * 1024)
+        .spawn(move || {
+            crate::util::install_panic_hook();
+            let stdout = std::io::stdout();
+            for (i, input) in inputs.iter().enumerate() {
+                {
+                    let mut o = stdout.lock();
+                    writeln!(o, "BEGIN {}", i).unwrap();
+                    o.flush().unwrap();
+                }
+                let res = f(input);
+                let mut o = stdout.lock();
+                writeln!(o, "END {} {}", i, res.replace('\n', " ")).unwrap();
+                o.flush().unwrap();
+            }
+        })
+        .expect("spawn child worker");
+    let _ = handle.join();
+}
